@@ -96,7 +96,11 @@ func runC06s(seed int64, tier string, sc *Script) map[string]any {
 	}
 	ops := 0
 	for ci := 0; ci < cases; ci++ {
-		kind := []string{"mem", "file"}[ci%2]
+		kind := []string{"mem", "file", "mem", "filecas"}[ci%4]
+		forceCAS := kind == "filecas"
+		if forceCAS {
+			kind = "file"
+		}
 		// universe: blobs (some sharing bytes under another media type for the memory store),
 		// then image manifests listing blobs with titles
 		var nodes []*sNode
@@ -149,9 +153,13 @@ func runC06s(seed int64, tier string, sc *Script) map[string]any {
 		for _, n := range nodes {
 			byKey[keyOf(n.desc)] = n.id
 		}
-		sc.Case("store-history " + kind)
+		sc.Case("store-history " + kind + map[bool]string{true: " ForceCAS"}[forceCAS])
 		sc.NonTrivial()
-		sc.Def("s new kind=%s", kind)
+		if forceCAS {
+			sc.Def("s new kind=%s cas=1", kind)
+		} else {
+			sc.Def("s new kind=%s", kind)
+		}
 		for _, n := range nodes {
 			k := "b"
 			if n.isMan {
@@ -181,6 +189,7 @@ func runC06s(seed int64, tier string, sc *Script) map[string]any {
 			if err != nil {
 				panic(err)
 			}
+			fstore.ForceCAS = forceCAS
 			st = fstore
 		}
 		withName := func(d ocispec.Descriptor, name int) ocispec.Descriptor {
